@@ -191,6 +191,20 @@ class FullWorld:
         return getattr(link.ends[e].protocol, "_wrappedProtocol", link.ends[e].protocol)
 
     def deliver_unit(self, link, frm):
+        late = getattr(self, "after_close", {}).get((id(link), frm))
+        if not link.ends[frm].out and late:
+            # written before that end closed in an orderly way: TCP still delivers it to the peer
+            unit = late.pop(0)
+            peer = link.ends[1 - frm]
+            if not link.alive[1 - frm]:
+                return
+            try:
+                link.fabric.call_protocol(peer.protocol.dataReceived, unit)
+            except sim._ProtocolRaised as e:
+                self.internal.append("dataReceived: %s" % (str(e)[:120],))
+                if link.can_observe_loss(1 - frm):
+                    link.observe_loss(1 - frm)
+            return
         try:
             link.deliver(frm)
         except sim._ProtocolRaised as e:
@@ -289,6 +303,9 @@ class FullWorld:
             if e is None:
                 raise RuntimeError("link %d has no end of %s" % (i, x))
             if link.ends[e].disconnecting and link.alive[e] and not link.cut:
+                if not hasattr(self, "after_close"):
+                    self.after_close = {}
+                self.after_close[(id(link), e)] = list(link.ends[e].out)
                 link.finish_close(e)
             elif link.can_observe_loss(e):
                 link.observe_loss(e)
@@ -301,7 +318,48 @@ class FullWorld:
         self.run_auto_timers()
         self._new_attempts()
         self.pump_mailbox()
+        self._maybe_traffic()
         self.snapshot()
+
+    # ---- application traffic (invisible at the model's level of abstraction) ------------------------------------------------
+    traffic = False
+
+    def _maybe_traffic(self):
+        """traffic=True: as soon as the Leader is connected its application opens a subchannel and writes; nothing delivers
+        those records (the model's steps only move handshake units), so they are un-acked when the connection is lost and
+        are sent again on the next connection"""
+        if not self.traffic or getattr(self, "_traffic_done", False):
+            return
+        if "L" not in self.api or "F" not in self.api or self.state()["L"]["mgr"] != "CONNECTED":
+            return
+        self._traffic_done = True
+        from twisted.internet import protocol as tproto
+        world = self
+
+        class P(tproto.Protocol):
+            def connectionMade(self):
+                world.traffic_log.append(("made", self.side))
+                if self.side == "L":
+                    self.transport.write(b"un-acked when the link is lost")
+
+            def dataReceived(self, data):
+                world.traffic_log.append(("data", self.side, bytes(data)))
+
+            def connectionLost(self, reason=None):
+                world.traffic_log.append(("lost", self.side))
+
+        def fac(side):
+            f = tproto.Factory()
+            f.buildProtocol = lambda addr: type("P_" + side, (P,), {"side": side})()
+            return f
+        self.traffic_log = []
+        try:
+            self.api["F"].listener_for("p").listen(fac("F"))
+            d = self.api["L"].connector_for("p").connect(fac("L"))
+            d.addErrback(lambda f: self.internal.append("traffic: %r" % (f.value,)))
+        except Exception as e:
+            self.internal.append("traffic: %r" % (e,))
+        self.run_auto_timers()
 
     # ---- fair completion --------------------------------------------------------------------------------------------------
     def run_out(self, limit=600):
@@ -511,6 +569,7 @@ BENIGN = ("no transition for MethodicalInput(method=<function Connector.accept",
 
 def replay_behaviour(tid, states, no_listen=(), then_stop=()):
     w = FullWorld(variant=tid, no_listen=no_listen)
+    w.traffic = (tid % 2 == 0)
     drift = None
     for i, st in enumerate(states[1:], start=1):
         la = st["last"]
@@ -716,11 +775,11 @@ def run(prop, tier):
             rec["origin"] = origin
             rec["oldpeer"] = {"ok": True, "closed": True}
             records.append(rec)
-            meta[tid] = {"schedule": w.schedule, "no_listen": sorted(nolisten)}
+            meta[tid] = {"schedule": w.schedule, "no_listen": sorted(nolisten), "traffic": w.traffic}
             if drift:
                 ndrift += 1
                 if len(cov["drift"]) < 8:
-                    cov["drift"].append(dict(drift, tid=tid))
+                    cov["drift"].append(dict(drift, tid=tid, origin=origin, schedule=w.schedule[:drift["step"] + 1], no_listen=sorted(nolisten)))
         if prop == "C17":
             tid += 1
             op = old_peer_case(tid)
